@@ -395,6 +395,35 @@ func c02Scenario(g c01Gen, dotu bool) Scenario {
 		for _, b := range c02StringSweep(dotu) {
 			try(b)
 		}
+		// Rstat / Twstat: the two 16-bit counts of the stat record agree with each other and with the
+		// frame, for every size 0..90 (smaller than any stat record, and around its fixed part)
+		if g.typ == wire.Rstat || g.typ == wire.Twstat {
+			for sz := 0; sz <= 90; sz++ {
+				for _, fill := range []byte{0, 1, 0xFF} {
+					hdr := []byte{0, 0, 0, 0, g.typ, 2, 1}
+					if g.typ == wire.Twstat {
+						hdr = append(hdr, 5, 0, 0, 0)
+					}
+					b := append(hdr, byte(sz+2), byte((sz+2)>>8), byte(sz), byte(sz>>8))
+					b = append(b, bytes.Repeat([]byte{fill}, sz)...)
+					binary.LittleEndian.PutUint32(b, uint32(len(b)))
+					try(b)
+				}
+				// ... and the same two counts written into complete packets (frame and body untouched)
+				off := 7
+				if g.typ == wire.Twstat {
+					off = 11
+				}
+				for _, base := range bases {
+					if len(base) >= off+4 {
+						t := append([]byte{}, base...)
+						binary.LittleEndian.PutUint16(t[off:], uint16(sz+2))
+						binary.LittleEndian.PutUint16(t[off+2:], uint16(sz))
+						try(t)
+					}
+				}
+			}
+		}
 		for bi, base := range bases {
 			L := len(base)
 			if bi == 0 {
@@ -656,7 +685,7 @@ func c02Scenarios(tier string) []Scenario {
 func init() {
 	register(&Property{ID: "C02", Level: "exploration",
 		Technique: "bounded-exhaustive enumeration of packet mutations (truncations, declared sizes, byte substitutions, length-field overwrites, all tiny frames)",
-		Rule:      "for up to 5 canonical packets per type and dialect: every truncation (with and without adjusted size field), every declared size 0..len+8 and extremes, every byte value at every offset (packets <= 96 bytes; boundary values otherwise), 11 u16 and 11 u32 values written at every offset, all 65536 values of the Twalk / Rwalk element counts, every string field with every length 0..40; well-formed walks of 0..600 (and 1000..5041) elements and bodies one byte short / long of them; every frame of header + <=3 body bytes over {00,01,02,7f,ff} for all 256 type bytes; stat records likewise; each input decoded twice with different bytes after the declared size; Rerror, Rstat, Twstat, Tcreate and stat records (thorough: everything) also with the library's global Akaros option on. distinct = distinct byte strings",
+		Rule:      "for up to 5 canonical packets per type and dialect: every truncation (with and without adjusted size field), every declared size 0..len+8 and extremes, every byte value at every offset (packets <= 96 bytes; boundary values otherwise), 11 u16 and 11 u32 values written at every offset, all 65536 values of the Twalk / Rwalk element counts, every string field with every length 0..40; Rstat / Twstat whose two stat counts agree for every size 0..90; well-formed walks of 0..600 (and 1000..5041) elements and bodies one byte short / long of them; every frame of header + <=3 body bytes over {00,01,02,7f,ff} for all 256 type bytes; stat records likewise; each input decoded twice with different bytes after the declared size; Rerror, Rstat, Twstat, Tcreate and stat records (thorough: everything) also with the library's global Akaros option on. distinct = distinct byte strings",
 		Assumptions: []string{"allocation is measured with runtime/metrics and confirmed with runtime.MemStats when above 8 KiB + 16*len(input)"},
 		Scenarios:   c02Scenarios, QuickS: 100, ThoroughS: 900})
 }
